@@ -31,6 +31,10 @@ type Replay struct {
 // AssertFailed is the panic value raised by a failing Assert in replay mode.
 type AssertFailed struct{ ID string }
 
+// SampleEnd is raised when a witness sample (a model of a path prefix) runs out
+// of recorded values: the sampled prefix was replayed completely.
+type SampleEnd struct{}
+
 // AssumeFailed is raised when the replayed values violate an assumption
 // (the model does not correspond to a real execution).
 type AssumeFailed struct{ Where string }
@@ -69,6 +73,9 @@ func next(tag, kind string) NondetValue {
 			continue // clock readings are not replayed natively
 		}
 		panic(AssumeFailed{fmt.Sprintf("replay diverged: want tag %q, recorded %q", tag, v.Tag)})
+	}
+	if cur.Kind == "sample" {
+		panic(SampleEnd{})
 	}
 	panic(AssumeFailed{fmt.Sprintf("replay diverged: no recorded value for %q", tag)})
 }
@@ -189,6 +196,8 @@ func RunNative(setup func() any, h func(any), h0 func()) (outcome string) {
 				outcome = "ASSERT-FAILED " + r.ID
 			case AssumeFailed:
 				outcome = "ASSUME-FAILED " + r.Where
+			case SampleEnd:
+				outcome = "COMPLETED"
 			default:
 				outcome = fmt.Sprintf("PANIC %v", r)
 			}
